@@ -6,6 +6,7 @@
 -/
 import Jence.Model.Perft
 import Jence.Props.C01
+import Jence.Lemmas.SpecNodup
 namespace Jence.Props.C14
 open Jence
 
@@ -86,5 +87,93 @@ theorem seqs_length (g : Game) (d : Nat) : ∀ s ∈ seqs g d, s.length = d := b
 
 example : [3, 1, 2].Perm [1, 2, 3] := by decide
 example : ([[3], [1, 2]].map List.sum).sum = [1, 2, 3].sum := parallel_sum_exact _ _ (by decide)
+
+theorem makeMove_eq_core (g : Game) (m : Move) : makeMove g m = makeCore g m := by
+  unfold makeMove makeSearchMove
+  cases makeCore g m <;> rfl
+
+theorem sum_map_filter {α : Type} (l : List α) (acc : α → Bool) (f : α → Nat) (h : ∀ a ∈ l, acc a = false → f a = 0) :
+    (l.map f).sum = ((l.filter acc).map f).sum := by
+  induction l with
+  | nil => rfl
+  | cons a l ih =>
+    simp only [List.map_cons, List.sum_cons, List.filter_cons]
+    have ih' := ih (fun x hx => h x (List.mem_cons_of_mem _ hx))
+    cases ha : acc a
+    · simp only [Bool.false_eq_true, if_false]
+      rw [h a List.mem_cons_self ha, ih']; omega
+    · simp only [if_true, List.map_cons, List.sum_cons]; rw [ih']
+
+theorem sum_map_congr {α : Type} (l : List α) (f f' : α → Nat) (h : ∀ a ∈ l, f a = f' a) : (l.map f).sum = (l.map f').sum := by
+  induction l with
+  | nil => rfl
+  | cons a l ih =>
+    simp only [List.map_cons, List.sum_cons]
+    rw [h a List.mem_cons_self, ih (fun x hx => h x (List.mem_cons_of_mem _ hx))]
+
+/-- **T14.1 perft is the rules' perft.** For a consistent position in which the side not to move is not in check, the
+    engine's perft (bulk count at depth 1, make-and-recurse above; any summation order, T14.2) equals the number of legal
+    move sequences of that length by the rules specification - for every depth (the clocks staying below their `u8`/`u16`
+    limits along the way, which `Spec.apply` does not model). -/
+theorem perft_is_rules_perft : ∀ (d : Nat) (g : Game) (b : Board), Wf g b → NoKingCapture g →
+    g.halfMoves + d < 255 → g.fullMoves + d < 65535 → perft g (d + 1) = Spec.perft (Spec.abs g) (d + 1) := by
+  intro d
+  induction d with
+  | zero =>
+    intro g b wf nk _ _
+    have hp := legal_perm wf nk
+    show bulkCount g = ((Spec.legalMoves (Spec.abs g)).map fun m => Spec.perft (Spec.apply (Spec.abs g) m) 0).sum
+    have h1 : bulkCount g = (legalValues g).length := rfl
+    have h2 : ((Spec.legalMoves (Spec.abs g)).map fun m => Spec.perft (Spec.apply (Spec.abs g) m) 0).sum =
+        (Spec.legalMoves (Spec.abs g)).length := by
+      generalize Spec.legalMoves (Spec.abs g) = l
+      induction l with
+      | nil => rfl
+      | cons a l ih =>
+        simp only [List.map_cons, List.sum_cons, List.length_cons]
+        rw [ih]; simp only [Spec.perft]; omega
+    rw [h1, h2, ← hp.length_eq, List.length_map]
+  | succ d ih =>
+    intro g b wf nk hh hfm
+    have hp := legal_perm wf nk
+    show ((generateMoves g true).map fun m => match makeMove g m with | some g' => perft g' (d + 1) | none => 0).sum =
+      ((Spec.legalMoves (Spec.abs g)).map fun m => Spec.perft (Spec.apply (Spec.abs g) m) (d + 1)).sum
+    -- only accepted moves contribute
+    rw [sum_map_filter _ (fun m => (makeCore g m).isSome) _ (fun m _ hacc => by
+      rw [makeMove_eq_core]
+      cases h : makeCore g m with
+      | none => rfl
+      | some g' => rw [h] at hacc; exact absurd hacc (by simp))]
+    rw [← C01.legalValues_eq_made g wf.ok.epLe]
+    -- each accepted move leads to a consistent position that denotes the rules' successor
+    rw [sum_map_congr (legalValues g) _ (fun m => Spec.perft (Spec.apply (Spec.abs g) (smove m)) (d + 1)) (fun m hm => by
+      have hgen : m ∈ generateMoves g true := (List.mem_filter.1 hm).1
+      have hacc := C01.legal_moves_can_be_made g wf.ok.epLe m hm
+      rw [makeMove_eq_core]
+      cases hmk : makeCore g m with
+      | none => rw [hmk] at hacc; exact absurd hacc (by simp)
+      | some g' =>
+        simp only
+        have fits := gen_fits wf nk true m hgen
+        have flags := gen_flags wf true m hgen
+        have wf' := makeCore_wf g g' m b wf fits hmk
+        have nk' := makeCore_nk g g' m b wf fits hmk
+        obtain ⟨ch, cf⟩ := makeCore_clocks g g' m hmk
+        have hh' : g'.halfMoves + d < 255 := by
+          rw [ch]; split
+          · omega
+          · have : (g.halfMoves + 1) % 256 = g.halfMoves + 1 := Nat.mod_eq_of_lt (by omega)
+            omega
+        have hf' : g'.fullMoves + d < 65535 := by
+          rw [cf]; split
+          · omega
+          · have : (g.fullMoves + 1) % 65536 = g.fullMoves + 1 := Nat.mod_eq_of_lt (by omega)
+            omega
+        rw [ih g' _ wf' nk' hh' hf', apply_refines wf fits flags hmk (by omega) (by omega)])]
+    have : ((legalValues g).map fun m => Spec.perft (Spec.apply (Spec.abs g) (smove m)) (d + 1)) =
+        (((legalValues g).map smove).map fun sm => Spec.perft (Spec.apply (Spec.abs g) sm) (d + 1)) := by
+      rw [List.map_map]; rfl
+    rw [this]
+    exact sum_perm _ _ (hp.map _)
 
 end Jence.Props.C14
